@@ -186,13 +186,11 @@ def observables(m):
             for c in g["comps"]:
                 ph = db.phase(c["g"])
                 obs.append(('GAS("%s")' % c["g"], "ext", False, _els(ph.elements) if ph else ()))
+            # PR_P / PR_PHI / GAS_VM are the values of the last Peng-Robinson evaluation, which uses the mole fractions
+            # of the previous iteration (observed: 4e-8 scatter of PR_P of a minor component while GAS() agrees to
+            # 1e-11): the partial pressures are compared through SI(gas) = log fugacity and the moles instead
             if g["fixed"] == "pressure":
                 obs.append(("GAS_P", "rel", False, ()))
-                obs.append(("GAS_VM", "rel", False, ()))
-                for c in g["comps"]:
-                    ph = db.phase(c["g"])
-                    obs.append(('PR_P("%s")' % c["g"], "rel", False, _els(ph.elements) if ph else ()))
-                    obs.append(('PR_PHI("%s")' % c["g"], "rel", False, ()))
         if stg.get("ex"):
             for s in db.exchange_species.values():
                 names = [n for _, n in s.lhs]
@@ -268,15 +266,17 @@ def close(a, b, kind, ext, ctxv):
         if kind == "rel":
             tol = rel * max(abs(a), abs(b), 1e-12)
         elif kind == "alk":
-            tol = rel * max(abs(a), abs(b), 1e-3 * ctxv["mu"])
+            # alkalinity is a signed sum over species (OH- minus H+ plus ...): its terms set the scale
+            tol = rel * max(abs(a), abs(b), 1e-3 * ctxv["mu"], ctxv["hoh"])
         elif kind == "psi":
             tol = rel * max(abs(a), abs(b), 0.0257)
         elif kind == "sigma":
-            tol = rel * max(abs(a), abs(b), 1e-4)
+            # net surface charge density = small difference of the charged site populations near the point of zero charge
+            tol = rel * max(abs(a), abs(b), ctxv["site_sigma"])
         elif kind == "ext":
             tol = rel * max(abs(a), abs(b), ctxv["ext_floor"])
         elif kind == "cb":
-            tol = rel * max(abs(a), abs(b), ctxv["ext_floor"], 1e-3 * ctxv["mu"] * ctxv["kgw"])
+            tol = rel * max(abs(a), abs(b), ctxv["ext_floor"], 1e-3 * ctxv["mu"] * ctxv["kgw"]) + ctxv["cb_noise"]
         else:
             raise ValueError(kind)
     d = abs(a - b)
@@ -403,9 +403,24 @@ def check_case(case, ctx):
         pairs.append((key, v, key2, RB[key2]))
     st2 = m.get("st2")
     worst = worst_ph = 0.0
+    worst_expr = ""
+    skipped_noise = 0
+    site_moles = sum(i["moles"] for stg in (m, st2 or {}) for i in (stg.get("su") or {}).get("sites", []))
+    site_sigma = 0.0
+    for stg in (m, st2 or {}):
+        su = stg.get("su")
+        if su:
+            site_sigma = 96485.0 * sum(i["moles"] for i in su["sites"]) / (su["sites"][0]["area"] * su["sites"][0]["grams"])
     nreact = 0
+    pairs.sort(key=lambda q: (q[0][0], q[0][1] != "i_soln", str(q[0])))
+    carry, carry_next, cur_sim = {}, {}, None
     for keyA, (solA, va), keyB, (solB, vb) in pairs:
         sim, state = keyA[0], keyA[1]
+        if sim != cur_sim:
+            # solutions saved by an earlier simulation carry that simulation's mass-balance uncertainty with them
+            cur_sim = sim
+            for e, v in carry_next.items():
+                carry[e] = max(carry.get(e, 0.0), v)
         if state == "i_soln":
             poised = True      # pe is an input
         else:
@@ -428,7 +443,8 @@ def check_case(case, ctx):
         mu = va[imu] if isinstance(va[imu], float) else 0.0
         row_ext = 1.0 if keyB[2] in copies else ext
         kgwb = vb[iw] if isinstance(vb[iw], float) else kgw
-        ctxv = {"mu": mu, "kgw": kgw, "ext_floor": 1e-3 * inventory + 1e-6 * kgw, "tol_pH": REL, "nu": 0.0}
+        ctxv = {"mu": mu, "kgw": kgw, "ext_floor": 1e-3 * inventory + 1e-6 * kgw, "tol_pH": REL, "nu": 0.0,
+                "site_sigma": site_sigma}
         # Solver tolerance (model.cpp residuals()): a mass balance counts as converged when its residual is below
         # max(convergence_tolerance x n, sqrt(n x MIN_TOTAL)) with n the moles of the element and MIN_TOTAL = 1e-25 mol,
         # i.e. a relative uncertainty sqrt(1e-25 / n) of every element total (1e-11 for 1 mmol, 3e-9 for 1e-8 mol), and
@@ -437,15 +453,31 @@ def check_case(case, ctx):
         eps_of = {}
         for i, o in enumerate(obs):
             if o[0].startswith("TOTMOLE("):
-                na = abs(va[i]) if isinstance(va[i], float) else 0.0
-                nb = abs(vb[i]) if isinstance(vb[i], float) else 0.0
-                n = min(na, nb)
-                eps_of[o[3][0]] = 1.0 if n < 1e-25 else min(1.0, 5.0 * math.sqrt(1e-25 / n))
+                # obs[i + 1] is SYS(element): the mass balance covers solution + exchanger + surface (SYS also counts
+                # phases: conservative); its accepted residual 5 sqrt(n_sys 1e-25) is an absolute uncertainty of the
+                # moles in solution
+                e = 0.0
+                for v in (va, vb):
+                    n = abs(v[i]) if isinstance(v[i], float) else 0.0
+                    nsys = max(abs(v[i + 1]) if isinstance(v[i + 1], float) else 0.0, n)
+                    e = max(e, 1.0 if n < 1e-30 else min(1.0, 5.0 * math.sqrt(nsys * 1e-25) / n))
+                    if not poised and o[3][0] in ("C", "S") and state != "i_soln":
+                        # un-poised rows: the electron balance is the ~1e-14 mol/kgw rounding difference of total H and O;
+                        # that many electrons can reduce the same amount of C(4) / S(6)
+                        w = abs(v[iw]) if isinstance(v[iw], float) else 1.0
+                        e = max(e, 1.0 if n < 1e-30 else min(1.0, 1e-13 * w / n))
+                e = max(e, carry.get(o[3][0], 0.0))
+                eps_of[o[3][0]] = e
+                if state != "i_soln":
+                    carry_next[o[3][0]] = max(carry_next.get(o[3][0], 0.0), e)
+        ctxv["hoh"] = max(abs(va[ih]) if isinstance(va[ih], float) else 0.0, abs(va[ioh]) if isinstance(va[ioh], float) else 0.0)
+        icb = [i for i, o in enumerate(obs) if o[0] == "CHARGE_BALANCE"][0]
+        S = 2.0 * mu + (abs(va[icb]) / kgw if isinstance(va[icb], float) and kgw > 0 else 0.0)
+        # accepted mass-balance residuals of the ions, summed into the charge balance (eq, in the scale of view A)
+        ctxv["cb_noise"] = 15.0 * math.sqrt(S * 1e-25) * max(math.sqrt(kgw), math.sqrt(max(kgwb, 0.0)) / row_ext)
         ph_free = state != "i_soln" or any(s["pH_opt"] for s in m["sols"] if s["n"] == keyA[2])
         if ph_free and isinstance(va[ih], float) and isinstance(va[ioh], float):
             bcap = max(abs(va[ih]), abs(va[ioh]), 1e-30)          # buffer capacity >= 2.3 max([H+],[OH-])
-            icb = [i for i, o in enumerate(obs) if o[0] == "CHARGE_BALANCE"][0]
-            S = 2.0 * mu + (abs(va[icb]) / kgw if isinstance(va[icb], float) and kgw > 0 else 0.0)
             noise = 15.0 * math.sqrt(S * 1e-25 / kmin)              # eq/kgw, margin 5 on 3 sqrt(S kgw 1e-25) / kgw
             ctxv["tol_pH"] = REL + noise / (2.302585 * bcap)
             # the accepted pH difference of this row is a nuisance parameter of every pH-dependent result
@@ -458,6 +490,10 @@ def check_case(case, ctx):
             if poised_only and not poised:
                 continue
             ctxv["eps_el"] = 3.0 * sum(eps_of.get(e, 0.0) for e in oels)
+            if ctxv["eps_el"] >= 0.1:
+                # the amount of this element in solution is below what the solver's mass-balance criterion resolves
+                skipped_noise += 1
+                continue
             if gas_gone and expr.startswith(("PR_P", "PR_PHI", "GAS_P", "GAS_VM")):
                 continue
             a, b = va[i], vb[i]
@@ -470,7 +506,8 @@ def check_case(case, ctx):
                 raise Violation("invariance:" + kind,
                                 "family %s row %r %s: A=%r B=%r%s (deviation %.3g x tolerance)" % (
                                     fam, keyA, expr, a, b, (" /%r" % row_ext) if kind in ("ext", "cb") and row_ext != 1.0 else "", ratio))
-            worst = max(worst, ratio)
+            if ratio > worst:
+                worst, worst_expr = ratio, "%s %s" % (state, expr)
             if kind == "pH":
                 worst_ph = max(worst_ph, ratio)
     # ---- classification
@@ -490,6 +527,8 @@ def check_case(case, ctx):
         classes.append("dev=0")
     else:
         classes.append("dev<=1e%d_tol" % max(-8, min(0, int(math.ceil(math.log10(worst))))))
+    if skipped_noise:
+        classes.append("values_below_solver_resolution_skipped")
     if worst_ph > 0:
         classes.append("pHdev<=1e%d_tol" % max(-8, min(0, int(math.ceil(math.log10(worst_ph))))))
     uu = units_used(m, specA) | units_used(m, specB)
@@ -507,7 +546,7 @@ def check_case(case, ctx):
             classes.append("U:alkalinity")
     if not differ:
         classes.append("identical_texts")
-    return {"nontrivial": bool(nt), "classes": classes}
+    return {"nontrivial": bool(nt), "classes": classes, "worst": [worst, worst_expr]}
 
 
 # ------------------------------------------------------------------------------------------ driver
